@@ -646,8 +646,9 @@ class LinComb:
         """
         from pysnark.boolean import LinCombBool
 
-        ret = PrivVal(1 if self.value == 0 else 0)
-        wit = PrivVal(backend.fieldinverse(self.value + (self.value == 0))) # Add self.value == 0 to prevent ZeroDivisionError
+        val = self.value % backend.get_modulus() # zero in the field, not only the integer zero
+        ret = PrivVal(1 if val == 0 else 0)
+        wit = PrivVal(backend.fieldinverse(val + (val == 0))) # Add val == 0 to prevent ZeroDivisionError
         
         # Trick from Pinocchio paper: if self is zero then ret=1 by first eq,
         # if self is nonzero then ret=0 by second eq
